@@ -163,7 +163,7 @@ fn snap_dir(p: &VfsPath, set: &HashSet<i128>, out: &mut Vec<String>, depth: usiz
 }
 
 fn snap_dir_gen(reads: bool, p: &VfsPath, set: &HashSet<i128>, out: &mut Vec<String>, depth: usize) {
-    if depth > 64 {
+    if depth > 380 {
         out.push(format!("{};err:MODEL-STUCK:U;-;-", hex(p.as_str().as_bytes())));
         return;
     }
